@@ -137,6 +137,47 @@ theorem C06_maps_follow_answers (parse : Bytes → Option Uuid) (ops : List Op) 
   have hrel := rel_run parse ops PState.empty [] (rel_empty parse)
   rwa [runBoth_fst] at hrel
 
+/-! ### real sessions: who a connection is -/
+
+/-- Session identity. Whatever the history did before, the session facts of connection `c`
+    (`is_encrypted`, `client_uuid`) change in a step only if that step is a pair-verify exchange on
+    `c` whose outer layer opens, whose identifier parses to a controller `u` that is paired right
+    now with key `k`, and whose proof was made with the private key belonging to `k` — and then
+    they become "verified as `u`"; the pairing maps do not change. In particular a failed exchange
+    (bogus / foreign / missing proof, wrong outer key, unknown or unparsable identifier) on an
+    already verified connection leaves its identity as it was. -/
+theorem C06_session_identity (parse : Bytes → Option Uuid) (s : PState) (ss : Sessions) (op : SOp)
+    (c : Nat) (h : (sstep parse s ss op).2.1 c ≠ ss c) :
+    ∃ v u idb k, op = .verify c v ∧ v.outerOk = true ∧ v.idb = some idb ∧ parse idb = some u ∧
+      aget s.paired u = some k ∧ v.signer = some k ∧
+      (sstep parse s ss op).2.1 c = ⟨true, some u⟩ ∧ (sstep parse s ss op).1 = s := by
+  cases op with
+  | setup idb key => exact absurd rfl h
+  | req c' body => exact absurd rfl h
+  | verify c' v =>
+    simp only [sstep] at h ⊢
+    cases hv : verifies parse s v with
+    | none => rw [hv] at h; exact absurd rfl h
+    | some u =>
+      rw [hv] at h
+      simp only at h ⊢
+      by_cases hc : c = c'
+      · subst hc
+        obtain ⟨ho, idb, k, h1, h2, h3, h4⟩ := verifies_some parse s v u hv
+        exact ⟨v, u, idb, k, rfl, ho, h1, h2, h3, h4, by simp⟩
+      · simp [hc] at h
+
+/-- Guard with real sessions: a `POST /pairings` on a connection whose session facts are not
+    "verified as a controller that is admin now" changes neither the pairing maps nor any session,
+    schedules no save and is answered with an error. Together with `C06_session_identity`: only
+    the controller that last proved its identity on the connection can be served, and only while
+    it is admin. -/
+theorem C06_session_guard (parse : Bytes → Option Uuid) (s : PState) (ss : Sessions) (c : Nat)
+    (body : Bytes) (h : ¬ (ss c).adminNow s) :
+    ∃ resp, sstep parse s ss (.req c body) = (s, ss, some (resp, false)) ∧ resp.isError = true := by
+  obtain ⟨resp, e, herr⟩ := C06_guard parse s ⟨ss c, body⟩ h
+  exact ⟨resp, by simp only [sstep, e], herr⟩
+
 /-! ### the code as shipped (before design/fixes/C06.patch) -/
 
 private def demoParse (b : Bytes) : Option Uuid :=
@@ -166,6 +207,12 @@ example : ¬ (Conn.mk true (some ⟨8, by decide⟩)).adminNow demoState := by
   rintro ⟨_, u, hu, ha⟩
   cases hu
   exact absurd ha (by decide)
+/-- a verified non-admin session stays what it is after a failed exchange naming the admin -/
+example :
+    let ss : Sessions := fun c => if c = 1 then ⟨true, some ⟨8, by decide⟩⟩ else ⟨false, none⟩
+    (sstep demoParse demoState ss (.verify 1 ⟨true, some [65], none⟩)).2.1 1 = ⟨true, some ⟨8, by decide⟩⟩ ∧
+    (sstep demoParse demoState ss (.verify 1 ⟨true, some [65], some [1, 2, 3]⟩)).2.1 1 = ⟨true, some ⟨7, by decide⟩⟩ := by
+  decide
 /-- the repaired model refuses the same request and changes nothing -/
 example : handleAdd demoParse demoState [(tReq, [3]), (tUser, [66]), (tPub, [9, 9]), (tPerm, [1, 0])]
     = (demoState, err500, false) := by decide
